@@ -52,6 +52,13 @@ MC_MODELS = {
     "session_t": {"module": "MCSession.tla", "cfg": "MCSession_t.cfg", "thorough_only": True, "timeout": 3000,
                   "expect_replay": {"complete": lambda r: len(r["bufs"]) == 2}},
     "enums": {"module": "MCEnums.tla", "cfg": "MCEnums.cfg"},
+    # the length arithmetic of the decoder with octet values forgotten: TLC for all inputs up to 20 octets ...
+    "len_tlc": {"module": "../LenMachine.tla", "cfg": "MCLenMachine.cfg"},
+    # ... and Apalache: Safe (every request fits, nothing underflows) is INDUCTIVE, for inputs of any length
+    "len_base": {"module": "LenMachine.tla", "thorough_only": True, "timeout": 1800,
+                 "apalache": ["--cinit=ConstInit", "--init=Init", "--next=Next", "--inv=IndInv", "--length=0"]},
+    "len_step": {"module": "LenMachine.tla", "thorough_only": True, "timeout": 1800,
+                 "apalache": ["--cinit=ConstInit", "--init=IndInit", "--next=Next", "--inv=IndInv", "--length=1"]},
 }
 
 DEC_MODELS = ["dec_framing", "dec_ctllen", "dec_avprec", "dec_kinds", "dec_loop3", "dec_loop4", "dec_data"]
@@ -68,7 +75,7 @@ COMMON_ASSUMPTIONS = [
 
 PROPS = {
     "C01": {
-        "mc": DEC_MODELS, "gen": ["decode", "avps", "payload", "decode_big"],
+        "mc": DEC_MODELS + ["len_tlc"], "gen": ["decode", "avps", "payload", "decode_big"],
         "rule": "TLC-explored boundary grammars of the decoder machine (every run exported and replayed) + seeded "
                 "random / mutated / raw inputs through both entry points, the bare AVP list reader and the per-type "
                 "readers, in a dev build (overflow checks, debug assertions) and a release build, under catch_unwind "
@@ -76,7 +83,7 @@ PROPS = {
         "assumptions": COMMON_ASSUMPTIONS + ["random inputs up to ~2 KiB; targeted inputs up to 131 KiB (16-bit sums near 65 535 with the octets really present)", "per-case watchdog 20 s (quick) / 60 s (thorough)"],
     },
     "C02": {
-        "mc": DEC_MODELS + ["hid_reveal"], "gen": ["decode_readers", "avps_readers", "payload_readers", "reveal"], "readers": "all",
+        "mc": DEC_MODELS + ["hid_reveal", "len_tlc", "len_base", "len_step"], "gen": ["decode_readers", "avps_readers", "payload_readers", "reveal"], "readers": "all",
         "rule": "as C01, every input decoded through SliceReader, a monitoring reader that logs each request with the "
                 "octets remaining, and a queue-backed reader; every logged request validated against the Reader contract "
                 "machine; the three outcomes must coincide",
